@@ -5,9 +5,9 @@ import vlib
 import gen_model
 
 
-def run_twh(bdir, args, timeout=120):
+def run_twh(bdir, args, timeout=120, binary="twh"):
     try:
-        p = subprocess.run([os.path.join(bdir, "twh")] + [str(a) for a in args], stdout=subprocess.PIPE,
+        p = subprocess.run([os.path.join(bdir, binary)] + [str(a) for a in args], stdout=subprocess.PIPE,
                            stderr=subprocess.STDOUT, timeout=timeout, text=True, errors="replace")
         return p.returncode, p.stdout
     except subprocess.TimeoutExpired:
@@ -28,6 +28,8 @@ def cfg_args(c):
         a += ["--prng", c["prng"]]
     if c.get("stats"):
         a += ["--stats", c["stats"]]
+    if c.get("ranks"):
+        a += ["--ranks", c["ranks"], "--net", c.get("net", 0)]
     return a
 
 
@@ -48,6 +50,12 @@ def classify_hang(trace_path):
     D9-stop: the same final shape after RootsimStop(), where a thread that had not yet joined the open
     round left the main loop because of the stop."""
     exited, st = set(), {}
+    try:
+        cfg = json.loads(open(trace_path).readline())
+        if cfg.get("ranks", 0) > 1 and cfg.get("nlps", 99) < cfg["ranks"]:
+            return "D10"
+    except Exception:
+        pass
     init_after_exit = False
     stop_seen = False
     joined = set()
@@ -71,11 +79,13 @@ def classify_hang(trace_path):
             joined.add(e["thr"])
     flushing = [t for t in st if 0 in st[t] and 1 not in st[t]]
     at_barrier = [t for t in st if 1 in st[t] and 2 not in st[t]]
-    if flushing and at_barrier:
+    # threads that joined the last opened round and never got out of it
+    in_round = [t for t in joined if not (t in st and 1 in st[t])]
+    if at_barrier and (flushing or in_round):
         if init_after_exit and not stop_seen:
             return "D9"
-        if stop_seen and (init_after_exit or any(t not in joined for t in at_barrier)):
-            return "D9-stop"
+        if any(t not in joined for t in at_barrier):
+            return "D9-stop" if stop_seen else "D9"
     return None
 
 
@@ -95,8 +105,12 @@ class Campaign:
         self.samples = []
         self.kf = vlib.known_findings()
 
-    def build(self, variant="plain"):
+    def build(self, variant="plain", dist=False):
         vlib.build(self.bdir, variant)
+        if dist:
+            rc, out = vlib.sh([os.path.join(vlib.VERIF, "lib", "build_dist.sh"), self.bdir], timeout=900)
+            if rc != 0:
+                raise vlib.MachineryError("build of the multi-rank harness failed:\n" + out[-3000:])
 
     def close(self):
         if os.environ.get("VERIF_KEEP"):
@@ -131,7 +145,7 @@ class Campaign:
         if getattr(self, "want_stats", False):
             c = dict(c, stats=trace + ".st")
         args = ["--model", md["txt"], "--out", trace] + cfg_args(c)
-        rc, out = run_twh(self.bdir, args)
+        rc, out = run_twh(self.bdir, args, binary="twd" if c.get("ranks") else "twh")
         res = {"cfg": c, "trace": trace, "rc": rc, "md": md}
         if rc not in (0, 3, 4):
             res["verdict"] = "machinery"
@@ -157,7 +171,7 @@ class Campaign:
         c = res["cfg"]
         self.stats["parallel_traces"] += 1
         key = (res["md"]["family"], res["md"]["mseed"], c.get("threads"), c.get("ckpt"), c.get("batch"), c.get("period"),
-               c.get("switch"), c.get("policy"), c.get("sseed"), c.get("term"), c.get("stop_at"))
+               c.get("switch"), c.get("policy"), c.get("sseed"), c.get("term"), c.get("stop_at"), c.get("ranks"), c.get("net"))
         self.stats["distinct_cfg"].add(key)
         v = res.get("v")
         if v:
